@@ -79,6 +79,11 @@ func drawCase(t *rapid.T) Case {
 		}
 		if trs[s] == nil || trs[s].Gone {
 			np := rapid.IntRange(2, min(3, nid)).Draw(t, "parts")
+			if rapid.IntRange(0, 11).Draw(t, "manyparts") == 5 {
+				// around the point where participant indices get a second decimal digit
+				// (the signature slots are keyed by zero-padded index)
+				np = rapid.IntRange(9, 11).Draw(t, "parts10")
+			}
 			// the Persister interface does not tie the number of network peers to the
 			// number of participants (a caller may list only the remote peers, or an
 			// additional hub): mostly one per participant, sometimes one less or more
